@@ -28,6 +28,9 @@ package fsim
 
 //@ func fsim.Download.receive
 //@   params d messageName messageBody respond
+//@   local chunk = UnOp#7 | addr:Alloc#2
+//@   local length = addr:FieldAddr#1 | addr:FieldAddr#17 | addr:FieldAddr#5
+//@   local name = addr:FieldAddr#10 | addr:FieldAddr#15 | addr:FieldAddr#3
 //@   props C17 C10(sweep)
 //@   sweep bounds,panic,make
 //@   callsites MultiWriter 1
@@ -58,6 +61,7 @@ package fsim
 // ---- wget (device fetches a URL) -----------------------------------------------------------------
 //@ func fsim.Wget.download
 //@   params d ctx url
+//@   local hashed = call:hash.Hash.Sum#1
 //@   props C17 C10(sweep)
 //@   sweep bounds,panic,make
 //@   callsites rename 1
@@ -68,6 +72,7 @@ package fsim
 // message leaves it alone (the owner sends sha-384 before name)
 //@ func fsim.Wget.receive
 //@   params d ctx messageName messageBody
+//@   local name = addr:FieldAddr#2
 //@   props C17 C10(sweep)
 //@   sweep bounds,panic,make
 //@   ensures @keepdigest messageName == "name" ==> u(d.sha384) == old(u(d.sha384))
@@ -77,6 +82,8 @@ package fsim
 // the bytes the latest Read delivered -------------------------------------------------------
 //@ func fsim.Upload.upload
 //@   params u name respond yield
+//@   local f = UnOp#4 | UnOp#7 | addr:Alloc#2 | extract0:call:io/fs.FS.Open#1
+//@   local hash = call:crypto/sha512.New384#1
 //@   props C17 C10(sweep)
 //@   sweep bounds,panic,make
 //@   callsites Read 1
